@@ -18,6 +18,7 @@ mod stream;
 mod total;
 mod uri;
 mod util;
+mod vocab;
 mod wire;
 mod wirecases;
 
